@@ -109,11 +109,21 @@ def run(base_seed, idx, stats, opts):
     w = cubes.gen_workload(rng, 3, 24 if tier == "thorough" else 16, max_rows=24)
     poolsize = rng.choice((1, 2, 2, 3, 4, 4, 8, rng.randint(1, 16)))
     log = core.EventLog()
+    cubes.WARNINGS_MODE[0] = w.get("warnings", "ignore")
+    try:
+        return _run_workload(w, poolsize, rng, tier, stats, log)
+    finally:
+        cubes.WARNINGS_MODE[0] = "ignore"
+
+
+def _run_workload(w, poolsize, rng, tier, stats, log):
     try:
         ref = serial_reference(w)
     except Exception:
         stats.count("discarded_unsupported")
         return "discarded"
+    if w.get("warnings") == "error":
+        stats.count("workloads_run_with_warnings_as_errors")
     log.add_bytes(repr(cubes.freeze(ref)).encode())
     est = None
     for k in range(K_SCHEDULES[tier]):
@@ -155,6 +165,14 @@ def capture_case(w, poolsize, spec, sched_seed, est, past="fresh"):
 
 def replay(case):
     w = case["workload"]
+    cubes.WARNINGS_MODE[0] = w.get("warnings", "ignore")
+    try:
+        return _replay(case, w)
+    finally:
+        cubes.WARNINGS_MODE[0] = "ignore"
+
+
+def _replay(case, w):
     ref = serial_reference(w)
     cube, aggs = with_past(w, case["poolsize"], case.get("past", "fresh"), (case.get("sched_seed") or 0) ^ 0xA57)
     res = poolrun.pooled_eval(w, case["poolsize"], case["spec"], script=case["decisions"],
